@@ -1,36 +1,2 @@
 #!/bin/bash
-# Mounts shim/dialnet in place of package net for network/netbios/nbt (build overlay, /repo untouched), so
-# that the transport's own Connect can be driven over a scripted connection. If the rewritten package
-# does not compile (the working tree uses a part of package net the shim does not mirror) the overlay is
-# dropped and the check falls back to storing the connection in the transport's field.
-set -u
-work=$1
-root=$(cd "$(dirname "$(readlink -f "$0")")/../.." && pwd)
-repo=${VERIF_REPO:-/repo}
-export GOFLAGS=-mod=mod GOPROXY=off
-mkdir -p "$work/nbt"
-mod=github.com/TheManticoreProject/Manticore
-python3 - "$repo" "$work" "$root" <<'PY'
-import sys,os,re,json,glob
-repo,work,root=sys.argv[1:4]
-ov={}
-for f in sorted(glob.glob(repo+'/network/netbios/nbt/*.go')):
-    if f.endswith('_test.go'): continue
-    s=open(f).read()
-    s2=re.sub(r'(?m)^(\s*)"net"\s*$', r'\1net "github.com/TheManticoreProject/Manticore/zz_verif/dialnet"', s)
-    s2=re.sub(r'(?m)^import "net"\s*$', 'import net "github.com/TheManticoreProject/Manticore/zz_verif/dialnet"', s2)
-    if s2!=s:
-        out=os.path.join(work,'nbt',os.path.basename(f))
-        open(out,'w').write(s2)
-        ov[f]=out
-ov[repo+'/zz_verif/dialnet/dialnet.go']=root+'/shim/dialnet/dialnet.go'
-json.dump({"Replace":ov},open(work+'/overlay.json','w'),indent=1)
-PY
-if (cd "$repo" && go build -overlay "$work/overlay.json" ./network/netbios/nbt/ ./network/smb/smb_v10/transport/) > "$work/dialnet-build.log" 2>&1; then
-  echo c11dial > "$work/TAGS"
-else
-  cat "$work/dialnet-build.log"
-  rm -f "$work/overlay.json"
-  echo "dial shim not mounted"
-fi
-exit 0
+exec "$(dirname "$(readlink -f "$0")")/../../tools/dialprebuild.sh" "$1" c11dial
